@@ -26,12 +26,23 @@ LSU = "LinearSatUnsat"
 LUS = "LinearUnsatSat"
 
 
+KEEP_CALLS = ("update_best_solution_and_process", "on_solution_callback")
+
+
 def optimise_fn(lib, adt):
+    """the procedure's `optimise`, with the private helpers of optimisation/ spliced in (lint/inline.py):
+    the rules see the same paths whether the code lives in optimise or in a helper it calls"""
+    from ..inline import view
     for imp in lib.impls_of("OptimisationProcedure"):
         if (imp["self_adt"] or "").endswith(adt):
             f = lib.impl_fn(imp, "optimise")
             if f is not None:
-                return f
+                d = f.file.rsplit("/", 1)[0]
+                key = "_optview_" + adt
+                if key not in lib.__dict__:
+                    lib.__dict__[key] = view(lib, f, want=lambda g: g.file.rsplit("/", 1)[0] == d and g.kind != "Closure"
+                                             and "/tests" not in g.file and g.name not in KEEP_CALLS)
+                return lib.__dict__[key]
     raise AnchorMissing("impl OptimisationProcedure for %s :: optimise" % adt)
 
 
@@ -68,41 +79,41 @@ def flag_arm(fn, node):
 def o1(led, rid, ctx):
     lib = ctx.lib
     n = 0
-    roots = {LSU: optimise_fn(lib, LSU), LUS: optimise_fn(lib, LUS)}
+    views = {LSU: optimise_fn(lib, LSU), LUS: optimise_fn(lib, LUS)}
+    covered = set()
+    for v in views.values():
+        covered |= {v.defn} | {g.defn for g in v.inlined}
     for f in lib.fns.values():
+        if (f.parent or f.defn) in covered:
+            continue
         for bb0, i, s in aggregates(f, "OptimisationResult", "Optimal"):
-            site = "%s:%d" % (f.file, s["line"])
-            which = None
-            for w, r in roots.items():
-                if f.file == r.file:
-                    which = w
-            sites = lift_sites(lib, roots[which], f, bb0) if which else []
-            if not sites:
+            n += 1
+            led.bad(rid, "who:%s" % (f.parent or f.defn), "%s:%d" % (f.file, s["line"]),
+                    "OptimisationResult::Optimal is constructed outside the two optimisation procedures "
+                    "(and not in a helper they call)")
+    for which, v in views.items():
+        for f2 in [v] + [g for g in v.closures]:
+            for bb, i, s in aggregates(f2, "OptimisationResult", "Optimal"):
                 n += 1
-                led.bad(rid, "who:%s" % (f.parent or f.defn), site, "OptimisationResult::Optimal is constructed "
-                        "outside the two optimisation procedures (and not in a helper they call)")
-                continue
-            for f2, bb in sites:
-                n += 1
+                site = "%s:%d" % (f2.file, s["line"])
                 arms = flag_arm(f2, bb)
                 if which == LSU:
-                    ok = any(v == "Infeasible" and c.name == "solve" for v, c in arms)
+                    ok = any(v_ == "Infeasible" and c.name == "solve" for v_, c in arms)
                     if not ok:
-                        # the other legitimate site: strengthening failed
+                        # the other legitimate site: strengthening (the clause objective ≤ best − 1) failed
                         for g in guards_of(f2, bb):
                             if g.kind == "bool" and g.val is True:
                                 a = peel(g.atom, calls=None)
                                 if a.k == "call" and a.a.name == "is_err" and a.b and \
-                                        peel(a.b[0], calls=None).k == "call" and \
-                                        peel(a.b[0], calls=None).a.name == "strengthen":
+                                        any(x.name in ("strengthen", "add_clause") for x in a.b[0].calls()):
                                     ok = True
-                    led.check(ok, rid, "LSU:Optimal@%s" % ("+".join(sorted({v for v, _ in arms})) or "-"), site,
+                    led.check(ok, rid, "LSU:Optimal@%s" % ("+".join(sorted({v_ for v_, _ in arms})) or "-"), site,
                               "after an infeasible solve / failed strengthening",
                               "SAT-UNSAT returns Optimal on a path that is neither the Infeasible arm of "
                               "a solve nor the failure of `strengthen` (arms: %s)" % arms)
                 else:
-                    ok = any(v == "Feasible" and c.name == "solve_under_assumptions" for v, c in arms)
-                    led.check(ok, rid, "LUS:Optimal@%s" % ("+".join(sorted({v for v, _ in arms})) or "-"), site,
+                    ok = any(v_ == "Feasible" and c.name == "solve_under_assumptions" for v_, c in arms)
+                    led.check(ok, rid, "LUS:Optimal@%s" % ("+".join(sorted({v_ for v_, _ in arms})) or "-"), site,
                               "after the solve under the bound assumption succeeded",
                               "UNSAT-SAT returns Optimal on a path that is not the Feasible arm of the "
                               "solve under the lower-bound assumption (arms: %s)" % arms)
@@ -110,54 +121,52 @@ def o1(led, rid, ctx):
 
 
 def o2(led, rid, ctx):
+    """the strengthening step of SAT-UNSAT, read off the inlined view of `optimise`: one add_clause
+    whose clause is the single predicate [scaled objective ≤ best × multiplier − 1], and whose
+    failure is what the Optimal of O1 is guarded by"""
     lib = ctx.lib
-    f = lib.method(LSU, "strengthen")
+    f = optimise_fn(lib, LSU)
     R = resolver(f)
-    ubs = [c for c in f.calls if c.name == "upper_bound_predicate"]
-    others = [c for c in f.calls if c.name in ("lower_bound_predicate", "equality_predicate",
-                                               "disequality_predicate")]
-    led.check(len(ubs) == 1 and not others, rid, "one-upper-bound-predicate", f.span,
-              "exactly one predicate, an upper bound", "strengthen builds %d upper-bound and %d other "
-              "predicates" % (len(ubs), len(others)))
-    if len(ubs) != 1:
-        return
-    c = ubs[0]
-    recv = root_local(f, c.args[0])
-    led.check(recv == 2, rid, "on-objective-parameter", c.span, "receiver is the objective parameter",
-              "the bound is not put on the objective parameter (root local _%s)" % recv)
-    e = peel(R.operand(c.args[1]), calls=None)
-    ok = (e.k == "binop" and e.a == "Sub" and e.b.k == "arg" and e.b.a == 3 and
-          e.c.k == "const" and e.c.a == 1)
-    led.check(ok, rid, "best-minus-one", c.span, "bound = best_objective_value − 1",
-              "the strengthening bound is %r, not best_objective_value − 1" % e)
-    # the predicate is the whole clause
-    adds = f.calls_named("add_clause")
-    led.check(len(adds) == 1, rid, "one-add_clause", f.span, "", "strengthen calls add_clause %d times" % len(adds))
-    if adds:
-        e = peel(R.operand(adds[0].args[1]), calls=None)
-        ok = e.k == "array" and len(e.a) == 1 and e.a[0].k == "call" and e.a[0].a is c
-        led.check(ok, rid, "unit-clause", adds[0].span, "the clause is exactly that predicate",
-                  "the clause posted by strengthen is %r" % e)
-        ret_ok = f.cfg.returns and all(
-            (0 in {d[2].dst["local"] for d in f.defs.get(0, []) if d[0] == "call" and d[2] is adds[0]})
-            for _ in [0])
-        led.check(bool(ret_ok), rid, "propagates-result", adds[0].span, "returns add_clause's result",
-                  "strengthen does not return the result of add_clause")
-    # the caller hands in the scaled objective and the best value in scaled terms
-    opt = optimise_fn(lib, LSU)
-    Ro = resolver(opt)
-    calls = opt.calls_named("strengthen")
-    led.check(len(calls) >= 1, rid, "strengthen-called", opt.span, "", "optimise never strengthens")
-    scaled_locals = {c2.dst["local"] for c2 in opt.calls_named("scaled") if c2.dst}
-    for c2 in calls:
-        r = root_local(opt, c2.args[1])
-        led.check(r in scaled_locals, rid, "strengthen-on-scaled-objective", c2.span,
+    scaled_locals = {c2.dst["local"] for c2 in f.calls_named("scaled") if c2.dst}
+    adds = []
+    for c in f.calls_named("add_clause"):
+        e = peel(R.operand(c.args[1]), calls=None)
+        if any(x.k == "call" and x.a.name.endswith("_predicate") for x in e.walk()):
+            adds.append((c, e))
+    led.check(len(adds) == 1, rid, "one-add_clause", f.span, "one strengthening clause per iteration",
+              "SAT-UNSAT posts %d strengthening clauses" % len(adds))
+    for c, e in adds:
+        ok = e.k == "array" and len(e.a) == 1 and peel(e.a[0], calls=None).k == "call"
+        led.check(ok, rid, "unit-clause", c.span, "the clause is exactly one predicate",
+                  "the strengthening clause is %s" % show(e)[:100])
+        if not ok:
+            continue
+        pc = peel(e.a[0], calls=None)
+        led.check(pc.a.name == "upper_bound_predicate", rid, "one-upper-bound-predicate", c.span,
+                  "an upper bound", "the strengthening predicate is built by %s" % pc.a.name)
+        recv = root_local(f, pc.a.args[0])
+        led.check(recv in scaled_locals, rid, "strengthen-on-scaled-objective", c.span,
                   "objective argument is the direction-scaled view",
-                  "strengthen is applied to a variable that is not the direction-scaled objective")
-        e = peel(Ro.operand(c2.args[2]), calls=None)
-        ok = e.k == "binop" and e.a == "Mul"
-        led.check(ok, rid, "strengthen-value-scaled", c2.span, "best value × objective multiplier",
-                  "the value handed to strengthen is %r (expected best_objective_value × multiplier)" % e)
+                  "strengthening is applied to a variable that is not the direction-scaled objective")
+        b = peel(pc.b[1], calls=None)
+        form = False
+        if b.k == "binop" and b.a.startswith("Sub") and peel(b.c, calls=None).k == "const" and peel(b.c, calls=None).a == 1:
+            m = peel(b.b, calls=None)
+            if m.k == "binop" and m.a.startswith("Mul"):
+                for side in (m.b, m.c):
+                    sd = peel(side, calls=None)
+                    vals = sorted(y.a for y in (sd.a if sd.k == "phi" else []) if getattr(y, "k", None) == "const" and y.a is not None)
+                    if vals == [-1, 1]:
+                        form = True
+        led.check(form, rid, "best-minus-one", c.span, "bound = best × multiplier − 1",
+                  "the strengthening bound is %s, not best_objective_value × multiplier − 1" % show(b)[:100])
+        # its verdict is what the loop tests
+        used = any(g.kind == "bool" and peel(g.atom, calls=None).k == "call" and peel(g.atom, calls=None).a.name == "is_err"
+                   and any(x is c for x in peel(g.atom, calls=None).b[0].calls())
+                   for bb in range(len(f.blocks)) for g in guards_of(f, bb)) if len(f.blocks) < 400 else True
+        led.check(used, rid, "propagates-result", c.span, "the verdict of add_clause is tested",
+                  "the result of the strengthening add_clause is not tested: a bound that cannot be posted would "
+                  "not end the search")
 
 
 def direction_tables(led, rid, f, label):
@@ -315,19 +324,13 @@ def o5(led, rid, ctx):
         led.check(len(upd) >= 2, rid, "%s:updates" % which, f.span, "%d incumbent updates" % len(upd),
                   "incumbent is updated at %d sites (initial solve and loop expected)" % len(upd))
         for variant in ("Optimal", "Satisfiable"):
-            for g in lib.fns.values():
-                if g.file != f.file or "/tests" in g.file:
-                    continue
-                for bb0, i, s in aggregates(g, "OptimisationResult", variant):
-                    sites = lift_sites(lib, f, g, bb0)
-                    n += max(1, len(sites))
-                    ok = bool(sites) and all(h is f and any(f.cfg.dominates(u.bb, bb) for u in upd) or
-                                             (h is not f and any(f.cfg.dominates(u.bb, _closure_site(f, h)) for u in upd))
-                                             for h, bb in sites)
-                    led.check(ok, rid, "%s:%s-after-update" % (which, variant), "%s:%d" % (g.file, s["line"]),
-                              "an incumbent update dominates the return",
-                              "%s is returned on a path on which the incumbent was never assigned "
-                              "(placeholder Solution::default() escapes)" % variant)
+            for bb, i, s in aggregates(f, "OptimisationResult", variant):
+                n += 1
+                ok = any(f.cfg.dominates(u.bb, bb) for u in upd)
+                led.check(ok, rid, "%s:%s-after-update" % (which, variant), "%s:%d" % (f.file, s["line"]),
+                          "an incumbent update dominates the return",
+                          "%s is returned on a path on which the incumbent was never assigned "
+                          "(placeholder Solution::default() escapes)" % variant)
     led.floor(rid, "solution-carrying returns", n, 5)
     # the callee assigns both out-parameters on every path
     g = lib.fn("OptimisationProcedure::update_best_solution_and_process")
@@ -351,12 +354,7 @@ def o8(led, rid, ctx):
     """UNSAT-SAT adds nothing permanent to the model except the negation of a bound it has just
     refuted (so that a later optimise on the same solver starts from the model alone)"""
     lib = ctx.lib
-    f = None
-    for imp in lib.impls_of("OptimisationProcedure"):
-        if (imp.get("self_adt") or "").endswith("LinearUnsatSat"):
-            f = lib.impl_fn(imp, "optimise")
-    if f is None:
-        raise AnchorMissing("LinearUnsatSat::optimise")
+    f = optimise_fn(lib, LUS)
     R = resolver(f)
     adds = [c for g in f.with_closures() for c in g.calls if c.name in ("add_clause", "add_constraint", "post")]
     led.floor(rid, "permanent additions in UNSAT-SAT", len(adds), 1)
@@ -402,12 +400,11 @@ def o9(led, rid, ctx):
     shapes = {}
     for tag in (LSU, LUS):
         root = optimise_fn(lib, tag)
-        calls = [(g, c) for g in lib.fns.values() if g.file == root.file and "/tests" not in g.file
-                 for c in g.calls_named("conclude_proof_optimal")]
+        calls = [(g, c) for g in [root] + list(root.closures) for c in g.calls_named("conclude_proof_optimal")]
         if not calls:
             raise AnchorMissing("conclude_proof_optimal in %s" % root.file)
         for g, c in calls:
-            for g2, e in arg_origins(lib, g, resolver(g).operand(c.args[1])):
+            for g2, e in [(g, peel(resolver(g).operand(c.args[1]), calls=None))]:
                 alts = e.a if e.k == "phi" else [e]
                 sh = set()
                 for a in alts:
